@@ -244,16 +244,24 @@ def replay_timer(r, harness):
     print("timer runs are re-executed by the check itself (real time): bin/check C17"); return 2
 
 # ---- C18 (and the schedule half of C02): concurrent rounds searched for a linearization (TraceLin.tla) ----
-def run_conc(prop, tier, seed, harness, workdir, T):
+def run_conc_msg(prop, tier, seed, harness, workdir, T):
+    """C01 under concurrency: message storms while receivers part, rename, are kicked (kind 3) and while sessions end under lock
+    contention (kind 11); a round that no serial order explains is a delivery that no history of the statement allows"""
+    return run_conc(prop, tier, seed, harness, workdir, T, kinds=(3, 11))
+
+def run_conc(prop, tier, seed, harness, workdir, T, kinds=None):
     from lincheck import lin_validate
     out = {"tool_errors": [], "violations": [], "coverage": {}}
     plan = [(2, 3), (4, 3), (16, 3)] if tier == "quick" else [(2, 12), (4, 12), (8, 8), (16, 12)]
     rounds_per = 44 if tier == "quick" else 66
+    if kinds:
+        plan = [(4, 3), (16, 3)] if tier == "quick" else [(2, 8), (4, 8), (16, 8)]
+        rounds_per = 24 if tier == "quick" else 48
     recs, procs = [], []
     for k, (w, eps) in enumerate(plan):
         rec = os.path.join(workdir, "conc-w%d.ndjson" % w)
         procs.append((subprocess.Popen([harness, "conc", rec, "--seed", str(seed * 100 + k), "--rounds", str(rounds_per), "--workers", str(w),
-                                        "--episodes", str(eps), "--port-base", str(33000 + 1000 * k)],
+                                        "--episodes", str(eps), "--port-base", str(33000 + 1000 * k)] + (["--kinds", ",".join(map(str, kinds))] if kinds else []),
                                        stdout=subprocess.PIPE, stderr=subprocess.STDOUT, text=True), rec))
     for p, rec in procs:
         o, _ = p.communicate(timeout=1500)
@@ -283,7 +291,7 @@ def run_conc(prop, tier, seed, harness, workdir, T):
     out["coverage"] = {"special_traces": len(rounds), "conc_rounds": len(rounds), "conc_commands": ncmds, "conc_rejected": len(rejected),
                        "lin_states": st.get("distinct", 0), "race_point_hits": max([r.get("race_hits", 0) for r in rounds] + [0]),
                        "conc_rule": "rounds of simultaneously fired pipelined scripts (nick claims, first joins, +l races, message storms during PART/KICK/NICK, "
-                                    "KILL vs QUIT vs NICK, registration races, random) on 2/4/16 worker threads with seeded race points; TLC searches every "
+                                    "KILL vs QUIT vs NICK, registration races, sessions ending while others talk under lock contention, random) on 2/4/16 worker threads with seeded race points; TLC searches every "
                                     "order respecting per-connection order for one that explains replies, per-pair relay order and the final state",
                        "samples": [{"round": {"kind": rounds[0]["kind"], "scripts": rounds[0]["scripts"]}}] if rounds else []}
     return out
@@ -555,6 +563,10 @@ def stall_behaviours():
          st(D, "MODE", ["bob"], ["+w"])] + probes + [st(F, "PRIVMSG", ["bob"], ["welcome: back"])])
     # a stalled user is renamed, kicked, parted by others' actions; two sessions (one stalled) end at once
     beh("kick-nick", [st(B, "!stall", [F]), st(A, "KICK", ["#one"], ["bob"], ["out"]), st(A, "INVITE", ["bob"], ["#one"])] + probes + [st(B, "!close"), st(C, "QUIT")] + [q for q in probes if q["c"] == A])
+    # a client that does not read asks for long replies itself: its task blocks in a write; nobody else may be held up by that
+    writers = [st(C, "JOIN", ["#new"]), st(C, "MODE", ["#new"], ["+t"]), st(A, "MODE", ["#one"], ["+m"]), st(C, "PART", ["#new"]), st(F, "NICK", ["florence"]),
+               st(D, "!open"), st(D, "NICK", ["dora"]), st(D, "USER", ["u4"], ["Real"]), st(D, "JOIN", ["#one"])]
+    beh("selfflood", [st(B, "!stall", [B])] + writers + probes + [st(B, "!rst")] + probes)
     return out
 
 def run_stall(prop, harness, workdir, T):
